@@ -4,6 +4,7 @@ import (
 	"errors"
 	"fmt"
 	"sort"
+	"strings"
 	"time"
 
 	"github.com/ostafen/clover/v2/index"
@@ -84,13 +85,25 @@ func RunIndex(c *core.Ctx) {
 			removeAll(dir)
 		}
 	}()
+	if r.Bool() {
+		// behind the store monitor: keys and values handed out by a cursor are poisoned as soon as it moves
+		// (badger's validity contract), whatever the backend
+		st = mon.Wrap(st)
+	}
 
 	// index content: duplicates, nil, mixed types
 	prof := gen.Pick(r, []gen.Profile{{Kind: gen.PSmallInt, Nil: 10}, {Kind: gen.PMixedNum, Nil: 10}, {Kind: gen.PString, Nil: 10}, {Kind: gen.PMixed}, {Kind: gen.PTime, Nil: 10}, {Kind: gen.PMixed, Nil: 20}, {Kind: gen.PArray}, {Kind: gen.PEdge}, {Kind: gen.PEdge, Nil: 10}})
-	n := gen.Pick(r, []int{0, 1, 3, 8, 20, 40})
+	n := gen.Pick(r, []int{0, 1, 3, 8, 20, 40, 8, 20, 260})
 	entries := make([]idxEntry, n)
 	for i := range entries {
 		entries[i] = idxEntry{id: r.UUIDMaybeUpper(), v: r.Value(prof)}
+	}
+	if n == 260 {
+		// long runs of duplicates (more than a store's prefetch window), of values with equally long encodings
+		vals := []any{int64(2), int64(3), int64(5), "aa", "ab"}
+		for i := range entries {
+			entries[i].v = vals[(i*len(vals))/n]
+		}
 	}
 	field := gen.Pick(r, []string{"f", "x", "n.a", "é"})
 	// the length of the key prefix matters to code that builds both bound keys from one buffer
@@ -147,7 +160,7 @@ func RunIndex(c *core.Ctx) {
 	}
 
 	phase := "in-writing-tx"
-	check := func(idx index.RangeIndex) bool {
+	check := func(idx index.RangeIndex, sibling index.Index) bool {
 		// full iteration
 		for _, rev := range []bool{false, true} {
 			var got []string
@@ -237,6 +250,23 @@ func RunIndex(c *core.Ctx) {
 						c.Violate("range:isempty", "Range %s reports IsEmpty but contains %s", rangeStr(rg), model.Render(b))
 						return false
 					}
+				}
+			}
+			// a scan nested inside the consumer of another scan of the same transaction must not disturb it
+			if len(got) >= 2 && k%5 == 0 {
+				var outer []string
+				err := idx.IterateRange(rg, rev, func(id string) error {
+					outer = append(outer, id)
+					cnt := 0
+					return sibling.(index.RangeIndex).Iterate(!rev, func(string) error { cnt++; return nil })
+				})
+				if err != nil {
+					c.Violate("index:range-error", "nested scans: %v", err)
+					return false
+				}
+				if strings.Join(outer, ",") != strings.Join(got, ",") {
+					c.Violate("index:nested-scan-disturbed", "IterateRange(%s, reverse=%v) yields %d ids alone but %d when its consumer scans a sibling index in the same transaction (%s, %s)", rangeStr(rg), rev, len(got), len(outer), backend, phase)
+					return false
 				}
 			}
 			// stop behaviour
@@ -332,7 +362,7 @@ func RunIndex(c *core.Ctx) {
 		return true
 	}
 
-	if !check(idx) {
+	if !check(idx, sib) {
 		tx.Rollback()
 		return
 	}
@@ -347,7 +377,7 @@ func RunIndex(c *core.Ctx) {
 		return
 	}
 	defer rtx.Rollback()
-	if !check(index.CreateIndex(coll, field, index.SingleField, rtx).(index.RangeIndex)) {
+	if !check(index.CreateIndex(coll, field, index.SingleField, rtx).(index.RangeIndex), index.CreateIndex(coll, field+"y", index.SingleField, rtx)) {
 		return
 	}
 	c.Sample(map[string]any{"backend": backend, "entries": n, "field": field, "profile_kind": prof.Kind})
